@@ -293,7 +293,7 @@ func init() {
 			"Oracle: (i) every input of the redefined function passes the filter and is not a supplied (name,type); (ii) calling it with a fresh value per declared input fails only with an error value some body returned, otherwise the original target ran exactly once and Out(i)/Err() are exactly what that execution produced, C01 monitor (with relabelling through the redefined function's own inputs) holds; " +
 			"(iii) output rejected by the output filter => Redefine fails; (iv) every target parameter permitted => Redefine succeeds. non-trivial = Redefine succeeded and the redefined call executed >= 1 converter, or Redefine was (rightly) refused",
 		Assumptions: []string{"supplied values are concrete; a value for an interface-typed declared input is supplied type-only (the only form the matching rules accept for interface requirements)", "positional target results so that Out(i) can be compared id by id"},
-		Run:   runC08,
+		Run:         runC08,
 		Floor: func(tier string, a *Agg) string {
 			if a.Obs["redefined_calls_with_conversion"] < 300 {
 				return "fewer than 300 redefined calls that exercised a conversion chain"
@@ -303,8 +303,7 @@ func init() {
 	})
 }
 
-func runC08(c *CaseCtx) CaseResult {
-	var res CaseResult
+func runC08(c *CaseCtx) (res CaseResult) {
 	r := caseRand(c.Seed, "C08", c.Idx)
 	rc := genRedefine(r)
 	s := rc.S
@@ -496,12 +495,12 @@ func stableScenario(r *rand.Rand) (Scenario, string) {
 	}
 }
 
-func runC09(c *CaseCtx) CaseResult {
+func runC09(c *CaseCtx) (res CaseResult) {
 	r := caseRand(c.Seed, "C09", c.Idx)
 	if c.Idx%8 == 7 {
 		return runC09Concurrent(c, r)
 	}
-	var res CaseResult
+
 	s, fam := stableScenario(r)
 	res.Key = s.Key()
 	cf := factsOf(&s)
@@ -624,8 +623,7 @@ func runC09(c *CaseCtx) CaseResult {
 
 // runC09Concurrent: Redefine in some goroutines, Call in others, on shared
 // objects, under the race detector.
-func runC09Concurrent(c *CaseCtx, r *rand.Rand) CaseResult {
-	var res CaseResult
+func runC09Concurrent(c *CaseCtx, r *rand.Rand) (res CaseResult) {
 	s, fam := stableScenario(r)
 	for i := range s.Convs {
 		// built functions share their value sets with the callback by design
